@@ -41,6 +41,7 @@ def run_shard(prop, spec, workdir, idx, timeout):
         json.dump(spec, f)
     env = dict(os.environ)
     env["PYTHONHASHSEED"] = str(spec.get("_hashseed", 0))
+    env["PV_TIEBREAK"] = os.environ.get("PV_FORCE_TIEBREAK") or spec.get("_tiebreak", "fifo")
     env["PYTHONPATH"] = VERIF
     env["PYTHONDONTWRITEBYTECODE"] = "1"
     try:
@@ -99,7 +100,10 @@ def main(argv=None):
     else:
         specs = mod.shards(a.tier, seed)
     shard_timeout = getattr(mod, "SHARD_TIMEOUT", {}).get(a.tier, 1500 if a.tier == "quick" else 7200)
-    for s in specs:
+    variants = getattr(mod, "TIEBREAK_VARIANTS", False) and a.tier == "thorough" and not a.replay
+    for k, s in enumerate(specs):
+        if variants:
+            s.setdefault("_tiebreak", ("fifo", "lifo", "fifo", "random")[k % 4])
         s.setdefault("_hashseed", 0)
         s.setdefault("_watchdog_s", shard_timeout - 20)
         s["tier"] = a.tier
